@@ -14,11 +14,24 @@ def run(chk):
     spec = dict(dtypes=[np.float64, np.complex128], anns=[(), ("SelfAdjoint",), ("PSD",), ("Unitary",)])
     rp = run_rules(chk, "C02", ["transpose", "adjoint"], default_spec=spec)
     methods.run_methods(chk, "C02", which=("_rmatmat", "__rmatmul__"))
+    # Sliced._rmatmat lives in the index domain (symbolic slices / index arrays): same obligations as C20, left product only
+    import itertools
+    from props import c20
+    from vcgen.core import pmap
+    kinds = [("slice", 1, "both"), ("slice", 2, "both"), ("slice", -1, "both"), ("slice", 1, "none"), ("index", 0, "")]
+    tasks = [("sliced", kr, kc, "_rmatmat") for kr, kc in itertools.product(kinds, kinds)]
+    chk.under_contract("cola.ops.operators.Sliced._rmatmat")
+    for obs in pmap(lambda i: c20.run_one(tasks[i], prop="C02"), len(tasks)):
+        for ob in obs:
+            chk.add(ob)
 
     def replayer(ob):
         w = ob.witness or {}
         if w.get("engine") == "METHOD":
             from vcgen import cex_methods
             return cex_methods.replay(w)
+        if w.get("engine") == "C20":
+            from props import c20_replay
+            return c20_replay.replay(w)
         return rp(ob)
     return replayer
